@@ -91,8 +91,10 @@ def run(chk, tier):
         if i % 2:
             g.feat |= {"try", "catchall"}
             g.exns = g.exns or ["Ex0", "Ex1", "Ex2"]
-        g.feat |= {"fun", "halt", "assert", "tup", "coll", "list", "filt", "for", "adt", "kwd", "strop", "str", "where", "pfor", "bits"}
+        g.feat |= {"fun", "halt", "assert", "tup", "coll", "list", "gen", "filt", "for", "adt", "kwd", "strop", "str", "where", "pfor", "bits"}
         eprogs.append(g.program("k%d" % i))
+    # ... and programs with collect forms over generators (the generator advances in step with filter and element expression)
+    eprogs += progen.generator_collect_family((chk.seed + 17) % 1000003, 20 if tier == "quick" else 300)
     fame = progcheck.Family(chk, eprogs, "exceptions", workers=vlib.NCPU, timeout=1500)
     for s_, c in fame.status_count.items():
         per["exn:" + s_] = c
